@@ -802,5 +802,6 @@ func extractC02() *lean {
 		l.def("chainValidatePKCE", "List String", leanStrList(c), c)
 	}
 	l.def("pkceMethods", "List String", leanStrList(methods), methods)
+	c02JarFacts(l)
 	return l
 }
